@@ -4,7 +4,7 @@ import os
 
 import mcd
 import mcdgen
-from mcdcheck import EngineDCheck, abort_class, hash_of, loop_msg
+from mcdcheck import EngineDCheck, abort_class, abort_msg, hash_of, loop_msg
 from rng import Rng
 
 
@@ -85,9 +85,11 @@ class C38(EngineDCheck):
                                  '(each waits for the other)' % r['config']))
                 elif r['looping']:
                     viol.append(('loop_' + red, loop_msg(r)))
+                elif r['stopped_at_error']:
+                    pass   # BeFS stops at the first assertion failure whatever max-errors says: not judged
                 elif not r['timed_out'] and not r['unsupported']:
                     viol.append((abort_class(r), 'simgrid-mc %s ended with status %s without finishing the exploration: %s'
-                                 % (r['config'], r['rc'], ' | '.join(r['criticals'][:2]) or r['stderr_tail'][-300:])))
+                                 % (r['config'], r['rc'], abort_msg(r) if r['criticals'] else r['stderr_tail'][-300:])))
                 continue
             if r['empty_program']:
                 if ref_dl:
@@ -96,11 +98,13 @@ class C38(EngineDCheck):
                                  'actors are alive and blocked for ever in the initial state: [%s]' %
                                  (r['config'], r['rc'], _show(sorted(ref_dl, key=str)[0]))))
                 continue
+            tag = red + ('_befs' if r['algo'] == 'BeFS' and red != 'udpor' else '') + \
+                ('_uniform' if r['strategy'] == 'uniform' else '')
             for name, ref, got in (('outcome', ref_term, r['outcomes']), ('deadlock', ref_dl, r['dl_sigs']),
                                    ('assert', ref_as, r['asserts'])):
                 miss = sorted(ref - got, key=str)
                 if miss:
-                    viol.append(('miss_%s_%s' % (name, red),
+                    viol.append(('miss_%s_%s' % (name, tag),
                                  '%s finished (%s states, %s traces, exit %s) with %d %s(s) but missed %d reachable one(s), '
                                  'e.g. [%s] reached by %s' % (r['config'], r['states'], r['traces'], r['rc'], len(got),
                                                               name, len(miss), _show(miss[0]), who[miss[0]])))
